@@ -149,7 +149,7 @@ def r1(rep, prog):
             if rs and rs[-1][0] == "agg" and "RangeTo" in rs[-1][1]:
                 st = body.stmts(rs[-1][2])[rs[-1][3]]
                 cs = trace_through(body, op_local(st["o"][0]))
-                if any(s[0] == "call" and s[1] in WRITE | {"std::io::Write::write"} for s in cs) and ("downcast", "Continue") in cs:
+                if any(s[0] == "call" and s[1] in WRITE | {"std::io::Write::write"} for s in cs) and (("downcast", "Continue") in cs or ("downcast", "Ok") in cs):
                     ok_cnt = True
         rep.check(ok_buf and ok_cnt, R, "FooterProxy::write hashes buf[..count]",
                   "slice base is the `buf` parameter, upper bound is the Ok value of the inner write",
@@ -257,14 +257,23 @@ def r3(rep, prog):
               "validate_checksum no longer enumerates SegmentMeta::list_files for each segment", site=body.span)
     VC = {MDI + "validate_checksum"}
     cs = calls_to(prog, body, VC)
-    rep.check(len(cs) >= 1, R, "validate_checksum checks each file with ManagedDirectory::validate_checksum", "%d call(s)" % len(cs),
+    # the per-file check is either a loop in the function (check, then insert into the damaged set) or the closure of an
+    # adaptor over the files whose results are collected into the set
+    in_closure = [(cb, b) for r in refs for cb in [prog.body(r)] if cb is not None for b, _t in calls_to(prog, cb, VC)]
+    rep.check(len(cs) + len(in_closure) >= 1, R, "validate_checksum checks each file with ManagedDirectory::validate_checksum", "%d call(s)" % (len(cs) + len(in_closure)),
               "cannot establish: no call to ManagedDirectory::validate_checksum", site=body.span)
-    rule_result_checked(rep, prog, R, fid, VC, "ManagedDirectory::validate_checksum")
-    # a false result leads to an insert into damaged_files
     INS = prog.names(r"HashSet::<T, S, A>::insert$")
-    ins = calls_to(prog, body, INS)
-    rep.check(bool(ins), R, "a failed file is inserted into the damaged set", "%d insert site(s)" % len(ins), "no insert into the damaged set", site=body.span)
-    rule_precede(rep, prog, R, fid, VC, INS, "ManagedDirectory::validate_checksum", "damaged_files.insert", a_ok=True)
+    if cs or not in_closure:
+        rule_result_checked(rep, prog, R, fid, VC, "ManagedDirectory::validate_checksum")
+        # a false result leads to an insert into damaged_files
+        ins = calls_to(prog, body, INS)
+        rep.check(bool(ins), R, "a failed file is inserted into the damaged set", "%d insert site(s)" % len(ins), "no insert into the damaged set", site=body.span)
+        rule_precede(rep, prog, R, fid, VC, INS, "ManagedDirectory::validate_checksum", "damaged_files.insert", a_ok=True)
+    else:
+        for cb, b in in_closure:
+            rule_result_checked(rep, prog, R, cb.id, VC, "ManagedDirectory::validate_checksum")
+        coll = [b for b, t in body.calls() if (t.get("f") or "").endswith("Iterator::collect") and "HashSet" in body.local_ty_str(place_local(t["dest"]))]
+        rep.check(bool(coll), R, "a failed file is inserted into the damaged set", "the per-file results are collected into a HashSet", "no insert into the damaged set", site=body.span)
     # ManagedDirectory::validate_checksum
     fid = MDI + "validate_checksum"
     vb = get_body(rep, prog, R, fid)
